@@ -41,9 +41,18 @@ API surface / domain
                                                                               dump(fd) binary and text, str(d)
   start objects: empty, dict-initialised, parsed from text, parsed from a list of lines; classes Deb822, Packages,
     Sources, Dsc.
+  key alphabet (field-name SHAPES; the   Names are abstract in the model (a   Conc / record_trace draw the names of every history from
+    statement quantifies over "a key       rank); the homomorphism name ->      WORDS plus freshly drawn short names: length 1 (a letter
+    alphabet", i.e. any legal field        string is the binding's, so the      whose two cases are the case variants, a digit, a
+    name: US-ASCII 33..126 without ':',    shape is a dimension of the          punctuation character), length 2 and 3 over the whole
+    not starting with '#' or '-',          concretization, stated in the        legal range, boundary lengths 16..300 (stretch); every
+    length >= 1)                           header of OrderedMap.tla             other LTS edge of the quick tier, all walks, all traces;
+                                                                              counted per shape x parsed/in-memory in the evidence
+                                                                              (a shape never taken through a parse = MachineryError)
   out of domain / unspecified: order_before/after(k, k) with k absent (KeyError or ValueError); copy.copy()
     (DESIGN.md 10.4); key functions that depend on the SPELLING they are handed (the harness folds the name before
-    its table lookup); key functions with side effects on the paragraph; a key function faulting for the only field.
+    its table lookup); key functions with side effects on the paragraph; a key function faulting for the only field;
+    field names starting with '#' (the line is a comment) or '-' (Policy 5.1 forbids both), non-ASCII field names.
 """
 import json
 import random
@@ -66,6 +75,42 @@ VALUE_POOL = ["1", "2", "foo (>= 1.0), bar", "x\n continued\n .\n more", "", "a:
               # singletons, BOM / zero-width / NBSP inside a value, non-BMP
               "cafe\u0301 \u212b\u2126 \ufb01", "caf\u00e9 \u00c5\u03a9 fi", "x\ufeffy\u200dz", "a\u00a0b\u3000c", "\U0001f600 \U0010ffff",
               "t\n \u0301lone-mark\n \ufeffbom-line"]
+
+
+# field-name SHAPES.  The model's names are abstract (an integer rank); the statement quantifies over "a key alphabet", i.e.
+# over every legal field name: US-ASCII 33..126 except ':' and not starting with '#' (a comment line) or '-' (Policy 5.1).
+# WORDS only holds ordinary names of 3+ letters, so the concretization also draws names of length 1 (a letter - its two
+# cases are the case variants -, a digit, a punctuation character), 2 and 3 over the whole legal character range.
+NAME_FIRST = [chr(c) for c in range(33, 127) if chr(c) not in ":#-"]
+NAME_REST = [chr(c) for c in range(33, 127) if chr(c) != ":"]
+LETTERS = "ABCDEFGHIJKLMNOPQRSTUVWXYZabcdefghijklmnopqrstuvwxyz"
+
+
+def short_names(rng, k, taken=()):
+    """k short field names with pairwise different case-folded forms (and different from those in taken)"""
+    out, seen = [], set(x.lower() for x in taken)
+    while len(out) < k:
+        first = rng.choice(LETTERS) if rng.random() < 0.6 else rng.choice(NAME_FIRST)
+        u = rng.random()
+        name = first + "".join(rng.choice(NAME_REST) for _ in range(0 if u < 0.6 else (1 if u < 0.85 else 2)))
+        if name.lower() not in seen:
+            seen.add(name.lower())
+            out.append(name)
+    return out
+
+
+def name_pool(rng):
+    return WORDS + short_names(rng, 6, WORDS)
+
+
+def in_lower_order(names):
+    low = [x.lower() for x in names]
+    return all(a < b for a, b in zip(low, low[1:]))
+
+
+def shape_of(names):
+    n = min(len(x) for x in names) if names else 0
+    return "len1" if n == 1 else "len2" if n == 2 else "len3+"
 
 
 BOUNDARY = [1, 2, 8, 15, 16, 17, 31, 32, 33, 63, 64, 65, 72, 73, 80, 127, 128, 129, 255, 256, 257, 1023, 1024, 1025, 4095, 4096, 4097]
@@ -106,13 +151,15 @@ class Conc:
     order, model spellings to case variants and model values to real values"""
 
     def __init__(self, rng, names, values, canonical=False):
-        pool = sorted(WORDS, key=str.lower)
         if canonical:
-            chosen = pool[:len(names)]
+            chosen = sorted(WORDS, key=str.lower)[:len(names)]
         else:
-            chosen = sorted(rng.sample(pool, len(names)), key=str.lower)
+            chosen = sorted(rng.sample(name_pool(rng), len(names)), key=str.lower)
         if not canonical and rng.random() < 0.15:
-            chosen = [stretch(rng, b) for b in chosen]
+            st = [stretch(rng, b) for b in chosen]
+            if in_lower_order(st):       # (a suffix can exchange 'a' and 'a!': keep the plain names then)
+                chosen = st
+        assert in_lower_order(chosen)
         self.base = {n: b for n, b in zip(sorted(names), chosen)}
         vs = sorted(values)
         if canonical:
@@ -562,6 +609,8 @@ def private_drift(ctx):
             ctx.drift("private linked list inconsistent: fwd=%r bwd=%r" % (fwd, bwd))
     except AttributeError as e:
         ctx.drift("private layout changed: %s" % e)
+    except Exception as e:       # a diagnostic never decides anything: the replay below judges the public behaviour
+        ctx.drift("private linked list probe failed: %s: %s" % (type(e).__name__, e))
 
 
 # ------------------------------------------------------------------ trace recording
@@ -570,11 +619,14 @@ def record_trace(rng, nnames, nops):
     """random history on the real class with a larger alphabet than the model; names are logged
     as ranks in lower-case sort order, spellings/values verbatim"""
     if nnames <= len(WORDS):
-        base = sorted(rng.sample(WORDS, nnames), key=str.lower)
+        base = sorted(rng.sample(name_pool(rng), nnames), key=str.lower)
     else:       # size stress: many keys
-        base = sorted(["%s-%03d" % (WORDS[i % len(WORDS)], i) for i in range(nnames)], key=str.lower)
+        base = sorted(["%s-%03d" % (WORDS[i % len(WORDS)], i) for i in range(nnames - 4)] + short_names(rng, 4), key=str.lower)
     if rng.random() < 0.15:
-        base = [stretch(rng, b) for b in base]
+        st = [stretch(rng, b) for b in base]
+        if in_lower_order(st):
+            base = st
+    assert in_lower_order(base)
     values = VALUE_POOL + ([big_value(rng)] if rng.random() < 0.2 else []) + ["w" + tail_char(rng), "m\n x" + tail_char(rng)]
     rank = {b.lower(): i + 1 for i, b in enumerate(base)}
 
@@ -739,15 +791,23 @@ def run(ctx):
     nconc = 1 if quick else 4
     kinds = ["empty", "dict", "parsed", "parsed-lines"]
     n_replayed = 0
+    shapes = {}          # name shape x (parsed start / dump-parse cycle in the history): how often exercised
+
+    def note_shape(conc, kind, path):
+        k = "%s/%s" % (shape_of(list(conc.base.values())),
+                       "parsed" if (kind.startswith("parsed") or any(x["op"] in ("dumpparse", "iofault") for x in path)) else "memory")
+        shapes[k] = shapes.get(k, 0) + 1
+
     for idx, e in enumerate(g.edges):
         for c in range(nconc):
-            conc = Conc(rng, names, values, canonical=(c == 0))
+            conc = Conc(rng, names, values, canonical=(c == 0 and not (quick and idx % 2)))
             kind = kinds[(idx + c) % len(kinds)]
             if kind == "empty":
                 start, path = [], paths[e["_f"]] + [e]
             else:
                 start, path = e["from"], [e]
             pseed = rng.getrandbits(32)
+            note_shape(conc, kind, path)
             msg = run_path(kind, start, path, conc, random.Random(pseed), names)
             nontrivial = e["from"] != e["to"] or e["res"] not in ("ok", "true", "false")
             ctx.case_seen(("edge", e["_f"], e["op"], skey(e["args"])), nontrivial)
@@ -771,6 +831,7 @@ def run(ctx):
         path = g.walk(rng, start_key, wlen, weight=walk_weight)
         conc = Conc(rng, names, values)
         pseed = rng.getrandbits(32)
+        note_shape(conc, kind, path)
         msg = run_path(kind, g.states[start_key], path, conc, random.Random(pseed), names, deep=(w % 10 == 0))
         ctx.case_seen(("walk", w, start_key), True)
         n_replayed += 1
@@ -792,6 +853,9 @@ def run(ctx):
         n_replayed += n
         ctx.extra["all_paths_depth3"] = n
     ctx.extra["behaviours_replayed"] = n_replayed
+    ctx.extra["replayed_by_name_shape"] = dict(sorted(shapes.items()))
+    if not ctx.violations and not (shapes.get("len1/parsed") and shapes.get("len2/parsed") and shapes.get("len3+/parsed")):
+        raise core.MachineryError("a field-name shape was never taken through a parse: %r" % (shapes,))
 
     # 4. code -> spec: recorded histories over 8 names x 4 spellings validated by TLC
     ntr, nops = (400, 25) if quick else (6000, 40)
@@ -825,6 +889,11 @@ def run(ctx):
                       "recorded history not explained by OrderedMap: event %d %r (after %d accepted events)"
                       % (at + 1, ev, at))
     ctx.extra["traces_recorded"] = len(traces)
+    tshape = {}
+    for t in traces:
+        k = "%s/%s" % (shape_of(t["base"]), "parsed" if (t["start"] == "parsed" or any(e["op"] in ("dumpparse", "iofault") for e in t["events"])) else "memory")
+        tshape[k] = tshape.get(k, 0) + 1
+    ctx.extra["traces_by_name_shape"] = dict(sorted(tshape.items()))
     fc = {}
     for t in traces:
         for e in t["events"]:
